@@ -27,7 +27,9 @@ impl StatelessTransportState {
             return Err(StateProblem::HandshakeNotFinished.into());
         }
 
-        let dh_len = handshake.dh_len();
+        // Length of a *public key* (what `rs` holds), which for some DH functions (P-256) is longer
+        // than the length of a DH output.
+        let dh_len = handshake.s.pub_len();
         let HandshakeState { cipherstates, params, rs, initiator, .. } = handshake;
         let pattern = params.handshake.pattern;
 
